@@ -36,7 +36,7 @@ def gen_case(root, i, tier):
     for f in range(n):
         kind = r.choice(['random', 'text', 'text', 'zeros']); size = r.choice(SIZES if tier == 'thorough' else SIZES[:-1] + [400000])
         fs = dict(name='f%d' % f, kind=kind, size=size, seed=r.randrange(1 << 30))
-        if op in 'dt': fs['variant'] = r.choices(['valid', 'corrupt', 'trunc', 'garbage'], [6, 2, 2, 1])[0]
+        if op in 'dt': fs['variant'] = r.choices(['valid', 'corrupt', 'trunc', 'garbage', 'tail'], [6, 2, 2, 1, 1])[0]   # tail: 1-3 stray bytes after the last frame (less than a magic number)
         spec['files'].append(fs)
     fl = spec['flags']
     if r.random() < 0.5 and op != 't': fl.append('--rm')
@@ -99,6 +99,7 @@ def materialize(env, spec, d):
             if v == 'corrupt' and len(z) > 12: z = bytearray(z); z[rr.randrange(6, len(z))] ^= 0x5A; z = bytes(z)
             elif v == 'trunc' and len(z) > 6: z = z[:rr.randrange(5, len(z))]
             elif v == 'garbage': z = z + b'\x11\x22\x33trailing-garbage'
+            elif v == 'tail': z = z + b'\x28\xb5\x2f'[:1 + rr.randrange(3)]
             open(zp, 'wb').write(z)
             model['sources'][fs['name'] + '.zst'] = z; model['orig'][fs['name']] = raw
             ok, data, msg = library_verdict(env, zp, model['dictpath'])
